@@ -28,11 +28,11 @@ CHECKS = {
     "C01": seq(["TestC01"], fuzz={"FuzzC01Body": 240}),
     "C02": seq(["TestC02Seq", "TestC02Race", "TestC02Contend"], per_test={"TestC02Race": SCRIPT, "TestC02Contend": (4, 25, 16, 600)}),
     "C03": seq(["TestC03", "TestC03Interfere"], qchecks=150, tchecks=3000, qshards=8, per_test={"TestC03Interfere": (4, 1500, 16, 40000)}),
-    "C04": seq(["TestC04Clock", "TestC04Bucket", "TestC04Reopen", "TestC04Race"], per_test={"TestC04Race": (4, 120, 16, 3000), "TestC04Clock": (2, 3000, 8, 200000), "TestC04Reopen": (4, 40, 16, 1500)}),
+    "C04": seq(["TestC04Clock", "TestC04Bucket", "TestC04Reopen", "TestC04Race", "TestC04Expiry"], per_test={"TestC04Race": (4, 120, 16, 3000), "TestC04Expiry": (2, 300, 8, 6000), "TestC04Clock": (2, 3000, 8, 200000), "TestC04Reopen": (4, 40, 16, 1500)}),
     "C05": seq(["TestC05"]),
     "C06": seq(["TestC06"]),
     "C07": seq(["TestC07"], fuzz={"FuzzC07Xattr": 240}),
-    "C08": seq(["TestC08Seq", "TestC08Order"], per_test={"TestC08Order": SCRIPT}),
+    "C08": seq(["TestC08Seq", "TestC08Order", "TestC08Race"], per_test={"TestC08Order": SCRIPT, "TestC08Race": (4, 120, 16, 3000)}),
     "C09": seq(["TestC09Seq", "TestC09Gap"], per_test={"TestC09Gap": SCRIPT}),
     "C10": seq(["TestC10", "TestC10Expiry"], qchecks=40, tchecks=150, level="fault_enumeration", per_test={"TestC10Expiry": (2, 2, 8, 12)}),
     "C11": seq(["TestC11"], qchecks=150, tchecks=1500),
